@@ -288,7 +288,7 @@ func TestVerifC29(t *testing.T) {
 	if !mc.Thorough() {
 		limits = []int{0, 1, 2, 3, 4, 5, 6, 9, 10, 15, 16, 20, 29, 30, 31, 32, 39, 40}
 	}
-	repeats := mc.Pick(32, 256)
+	repeats := mc.Pick(32, 48)
 
 	// Kad/addressbook worlds are immutable under onFindNode (checked below), so one
 	// instance per (shape, requester kind) is built lazily and shared by all
